@@ -317,32 +317,61 @@ class SweepFamily(Family):
                     out.append(s)
         return out
 
+    SLICES = 6
+
+    def units(self, tier):
+        return (self.n_quick if tier == "quick" else self.n_thorough) * self.SLICES
+
     def run_unit(self, seed, index, tier):
+        """unit = (base scenario, slice of its variants): the dry run is repeated per
+        slice (cheap) so that long sweeps balance over the workers."""
+        from ..core import sub_seed
+
         u = Unit()
-        base = base_scenario(seed, index, self.ex)
+        bi, sl = divmod(index, self.SLICES)
+        bseed = sub_seed(seed // (1 << 20), self.name, "base", bi) if False else None
+        # all slices of a base must see the same base: derive it from the base index
+        bseed = sub_seed(self._run_seed(seed, index), "base", bi)
+        base = base_scenario(bseed, bi, self.ex)
         dry = self.run_scenario(dict(base, record_sites="c0"))
-        u.add_result(dry, base, self.prop, nontrivial=False, keep_sample=(index % 11 == 0))
+        if sl == 0:
+            u.add_result(dry, base, self.prop, nontrivial=False, keep_sample=(bi % 11 == 0))
         if dry.error or any("exc" in o for o in dry.outcomes.values()):
             # the base itself must be healthy
-            dry.world.violate(self.prop, "base-scenario-unhealthy:%s" % base["ctype"],
-                              {"error": dry.error,
-                               "outcomes": {str(k): v.get("exc") for k, v in dry.outcomes.items()}})
-            u.viols.append({"prop": self.prop, "sig": "base-scenario-unhealthy:%s" % base["ctype"],
-                            "detail": repr(dry.error), "scenario": base, "digest": dry.digest})
+            if sl == 0:
+                u.viols.append({"prop": self.prop,
+                                "sig": "base-scenario-unhealthy:%s" % base["ctype"],
+                                "detail": repr((dry.error, {str(k): v.get("exc")
+                                                            for k, v in dry.outcomes.items()})),
+                                "scenario": base, "digest": dry.digest})
             return u
         vs = self.variants(base, dry)
+        total = len(vs)
+        vs = vs[sl::self.SLICES]
         if tier == "quick" and self.stride_quick > 1:
-            vs = vs[index % self.stride_quick::self.stride_quick]
+            off = (bi + sl) % self.stride_quick
+            vs = vs[off::self.stride_quick]
         for s in vs:
             res = self.run_scenario(s)
-            u.add_result(res, s, self.prop, nontrivial=True)
-        u.extra["sweep_bases"] = 1
-        u.extra["sweep_variants"] = len(vs)
+            u.add_result(res, s, self.prop, nontrivial=True,
+                         keep_sample=(sl == 0 and bi % 11 == 0 and len(u.samples) < 2))
+        if sl == 0:
+            u.extra["sweep_bases"] = 1
+            u.extra["sweep_variants_per_base_total"] = total
+        u.extra["sweep_variants_run"] = len(vs)
+        if tier == "thorough" or self.stride_quick == 1:
+            u.exhaustive = None
         return u
 
+    def _run_seed(self, seed, index):
+        # run_unit receives sub_seed(VERIF_SEED, prop, family, index); the base must
+        # not depend on the slice, so the runner passes the check seed through
+        # Family.check_seed (set by the worker) instead.
+        return getattr(self, "check_seed", 0)
 
-FAMS05 = [SweepFamily("C05", "sweep-async", 66, 660)]
-FAMS06 = [SweepFamily("C06", "sweep-async", 66, 660)]
+
+FAMS05 = [SweepFamily("C05", "sweep-async", 55, 550)]
+FAMS06 = [SweepFamily("C06", "sweep-async", 55, 550)]
 
 register("C05", {
     "level": "fault_enumeration",
